@@ -262,6 +262,20 @@ def check(facts, rep, tier, cfg):
     # ---- R5
     rep.rule("C08.R5", "public Multiplexor methods map queue / oneshot closure to Error::Closed")
     n = 0
+    for root, b, t, mapped in closed_mapping_sites(facts, crate):
+        n += 1
+        w5 = "%s (%s)" % (loc_str(t["loc"]), b.path)
+        if mapped:
+            rep.ok("C08.R5", "%s/closed-mapping#%d" % (root.path, n), w5, "failure mapped to Error::Closed")
+        else:
+            rep.bad("C08.R5", "%s/closed-mapping" % root.path, w5, "a closed queue / dropped oneshot in this public method is not reported as Error::Closed")
+    rep.floor("C08.R5", "fallible queue operations in public methods", n, 5)
+
+
+def closed_mapping_sites(facts, crate):
+    """(root method, body, terminator, mapped) for every fallible queue / oneshot operation in a public Multiplexor method;
+    mapped = its failure is converted into Error::Closed."""
+    out = []
     for b in crate.bodies:
         root = b
         while root.kind == "Closure" and root.parent in facts.by_dp:
@@ -275,7 +289,6 @@ def check(facts, rep, tier, cfg):
             if not fallible:
                 continue
             t2 = t2 or Tracer(facts, b)
-            n += 1
             mapped = False
             for bj, tt in b.calls():
                 cc = callee(tt)
@@ -284,9 +297,5 @@ def check(facts, rep, tier, cfg):
                         an = t2.operand(tt["args"][1]) if len(tt["args"]) > 1 else None
                         if an is not None and any(x.kind == "agg" and x[2].endswith("Error::Closed") for x in walk(an)):
                             mapped = True
-            w5 = "%s (%s)" % (loc_str(t["loc"]), b.path)
-            if mapped:
-                rep.ok("C08.R5", "%s/closed-mapping#%d" % (root.path, n), w5, "failure mapped to Error::Closed")
-            else:
-                rep.bad("C08.R5", "%s/closed-mapping" % root.path, w5, "a closed queue / dropped oneshot in this public method is not reported as Error::Closed")
-    rep.floor("C08.R5", "fallible queue operations in public methods", n, 5)
+            out.append((root, b, t, mapped))
+    return out
